@@ -112,7 +112,7 @@ package revocation
 //@         || did(call (*StatusList2021).update #2)
 
 //@ func (*StatusList2021).Verify
-//@   prop C11 C19
+//@   prop C01 C11 C19
 //@   safety
 //@   call (*StatusList2021).statusList #1 requires [only-revocation-entries-are-looked-up-by-their-own-list]
 //@        status.Type == StatusList2021EntryType && slEntry.StatusPurpose == "revocation" && arg(1) == slEntry.StatusListCredential
